@@ -61,7 +61,7 @@ def job_mc(ctx, acc, variant, cfg, workers, rng):
         if variant == "UC20ns":
             need.append("InitNs")
         tlc.require_coverage(res, need)
-    cases = bt.cases_from_dump(dump, variant, limit=ctx.pick(1200, 40000), rng=rng)
+    cases = bt.cases_from_dump(dump, variant, limit=ctx.pick(1200, 12000), rng=rng)
     nact = sum(1 for c in cases if c["kind"] == "act")
     census = {}
     for c in cases:
